@@ -94,6 +94,14 @@ Theorem C08_every_history_of_the_tree_is_loaded_once : forall C cdig t hs, wf_tr
 Proof. exact load_exactly_one. Qed.
 Print Assumptions C08_every_history_of_the_tree_is_loaded_once.
 
+(* hence routing goes to the deepest history OF THE TREE: the history a path is routed to contains the path, and no folder
+   on the way down to the path that carries an ascmhl folder lies deeper than its root *)
+Theorem C08_routed_to_the_deepest_history_of_the_tree : forall C cdig t hs p, load C cdig t = inl hs ->
+  is_prefix (lh_root (route_to hs p)) p = true /\
+  forall q hq, get_hist C t q = Some hq -> is_prefix q p = true -> length q <= length (lh_root (route_to hs p)).
+Proof. exact routed_to_deepest_of_tree. Qed.
+Print Assumptions C08_routed_to_the_deepest_history_of_the_tree.
+
 (* non-vacuity: two sealed folders whose names are `R` and `R1` (one the beginning of the other) side by side, a third one
    inside the second: all three are loaded, each at its path, before the root *)
 Definition c08_cdig (c : N) : text := [c].
